@@ -10,6 +10,7 @@ import (
 	"runtime"
 	"strings"
 	"sync"
+	"sync/atomic"
 	"time"
 
 	"github.com/feichai0017/NoKV/manifest"
@@ -98,17 +99,18 @@ type opState struct {
 }
 
 type cluster struct {
-	mu     sync.Mutex
-	evs    []*event
-	closed bool
-	queue  []myraft.Message
-	cut    [4]bool
-	nodes  [4]*node
-	dir    string
-	nextW  uint64
-	ops    []*opState
-	stats  map[string]int
-	terms  map[uint64]uint64 // term -> store seen as leader
+	mu            sync.Mutex
+	evs           []*event
+	closed        bool
+	queue         []myraft.Message
+	cut           [4]bool
+	nodes         [4]*node
+	dir           string
+	nextW         uint64
+	ops           []*opState
+	stats         map[string]int
+	terms         map[uint64]uint64 // term -> store seen as leader
+	readsInFlight atomic.Int32
 }
 
 type netT struct{ c *cluster }
@@ -192,6 +194,12 @@ func (in *incarn) apply(req *pb.RaftCmdRequest) (*pb.RaftCmdResponse, error) {
 	}
 	n := in.n
 	c := n.c
+	if c.readsInFlight.Load() > 0 {
+		// handleReady wakes readers (ReadStates) before it applies the committed
+		// entries of the same Ready: give a woken reader the chance to overtake
+		// the apply, so that a missing WaitApplied shows.
+		time.Sleep(100 * time.Microsecond)
+	}
 	c.mu.Lock()
 	defer c.mu.Unlock()
 	if in.dead {
@@ -297,11 +305,15 @@ func (c *cluster) call(n *node, spec cmdSpec, read bool) {
 	req := buildReq(spec, regionID)
 	var early string
 	in, st0 := n.inc, n.st
+	if read {
+		c.readsInFlight.Add(1)
+	}
 	go func() {
 		var resp *pb.RaftCmdResponse
 		var err error
 		if read {
 			resp, err = st0.ReadCommand(req)
+			c.readsInFlight.Add(-1)
 		} else {
 			resp, err = st0.ProposeCommand(req)
 		}
@@ -504,6 +516,10 @@ func runOne(spec runSpec, dir string) ([]*event, map[string]int, error) {
 		c.scriptF20()
 		return c.finish(), c.stats, nil
 	}
+	if spec.Profile == "newleader" {
+		c.scriptNewLeaderRead()
+		return c.finish(), c.stats, nil
+	}
 	_ = c.nodes[1+rng.Intn(3)].peer.Campaign()
 	c.pump(200)
 	maxOps := 9
@@ -628,6 +644,44 @@ func (c *cluster) scriptF20() {
 	}
 	c.call(c.nodes[2], c.newCmd(rng, "get"), true)
 	c.pump(500)
+}
+
+// scriptNewLeaderRead: a write is acknowledged by leader 1 while follower 2 has
+// the entry but has not learned that it is committed; 2 is then elected and
+// asked to read before it has committed anything in its own term. The read
+// index and the entries it covers arrive in one Ready: ReadCommand has to
+// wait for them (WaitApplied) or it serves the state before the acknowledged
+// write.
+func (c *cluster) scriptNewLeaderRead() {
+	rng := rand.New(rand.NewSource(1))
+	_ = c.nodes[1].peer.Campaign()
+	c.pump(500)
+	c.call(c.nodes[1], c.newCmd(rng, "put"), false)
+	op := c.ops[len(c.ops)-1]
+	for i := 0; i < 500 && c.qlen() > 0; i++ {
+		c.deliverAt(0, false)
+		select {
+		case <-op.done:
+			i = 500
+		default:
+		}
+	}
+	c.mu.Lock()
+	c.queue = nil // store 2 never hears about the commit from store 1
+	c.cut[1] = true
+	c.mu.Unlock()
+	_ = c.nodes[2].peer.Campaign()
+	for i := 0; i < 500 && c.qlen() > 0 && c.nodes[2].peer.Status().RaftState != myraft.StateLeader; i++ {
+		c.deliverAt(0, false)
+	}
+	k := c.newCmd(rng, "get")
+	k.K = c.evs[0].cmd.K
+	c.call(c.nodes[2], k, true)
+	c.pump(500)
+	for i := 0; i < 3; i++ {
+		_ = c.nodes[2].peer.Tick()
+		c.pump(500)
+	}
 }
 
 func evsCoq(prop string, evs []*event) string {
